@@ -11,11 +11,40 @@ def explore(body, start_bb, root_is, mark_pred, init_constraints=None, max_paths
     ('not', frozenset)}, path=[bbs])"""
     leaves = []
     init = dict(init_constraints or {})
-    stack = [(start_bb, False, init, [start_bb])]
+    stack = [(start_bb, False, init, [start_bb], {})]
     count = 0
     while stack:
-        bb, marked, cons, path = stack.pop()
+        bb, marked, cons, path, vals = stack.pop()
         count += 1
+        # constant propagation of plain locals along this path (the `matches!(..)` / `let ok = ..` idiom):
+        # a switch on a local whose value on this path is a known constant follows only that edge
+        nv = None
+        for s_ in body.blocks[bb]["stmts"]:
+            if s_["k"] == "assign" and not s_["dst"]["proj"]:
+                l_ = s_["dst"]["l"]
+                rv_ = s_["rv"]
+                c_ = rv_.get("use", {}).get("const") if "use" in rv_ else None
+                if nv is None:
+                    nv = dict(vals)
+                if c_ is not None and "value" in c_:
+                    nv[l_] = c_["value"]
+                else:
+                    src_ = None
+                    if "use" in rv_:
+                        pl_ = rv_["use"].get("copy") or rv_["use"].get("move")
+                        if pl_ is not None and not pl_["proj"]:
+                            src_ = pl_["l"]
+                    if src_ is not None and src_ in nv:
+                        nv[l_] = nv[src_]
+                    else:
+                        nv.pop(l_, None)
+        tk_ = body.blocks[bb]["term"]
+        if tk_["k"] == "call" and not tk_["dst"]["proj"]:
+            if nv is None:
+                nv = dict(vals)
+            nv.pop(tk_["dst"]["l"], None)
+        if nv is not None:
+            vals = nv
         if count > max_paths * 50:
             leaves.append({"end": bb, "kind": "limit", "marked": False, "cons": cons, "path": path})
             break
@@ -38,6 +67,22 @@ def explore(body, start_bb, root_is, mark_pred, init_constraints=None, max_paths
                 if root_is(root):
                     key = tuple(names)
                     break
+        known = None
+        if bb in body.switches and key is None:
+            on_ = body.switches[bb]["on"]
+            pl_ = on_.get("copy") or on_.get("move")
+            if pl_ is not None and not pl_["proj"] and pl_["l"] in vals:
+                known = vals[pl_["l"]]
+        if known is not None:
+            tgt = None
+            for v_, b_ in body.switches[bb]["arms"]:
+                if v_ == known:
+                    tgt = b_
+            if tgt is None:
+                tgt = body.switches[bb]["otherwise"]
+            if tgt not in path:
+                stack.append((tgt, marked, cons, path + [tgt], vals))
+            continue
         if key is not None:
             explicit = set(k for k in si["edges"])
             for lab, tgt in si["edges"].items():
@@ -50,25 +95,25 @@ def explore(body, start_bb, root_is, mark_pred, init_constraints=None, max_paths
                     continue
                 c2 = dict(cons)
                 c2[key] = lab
-                stack.append((tgt, marked, c2, path + [tgt]))
+                stack.append((tgt, marked, c2, path + [tgt], vals))
             ow = si["otherwise"]
             if ow not in si["edges"].values() and body.blocks[ow]["term"]["k"] != "unreachable" and ow not in path:
                 c2 = dict(cons)
                 prev = cons.get(key)
                 if isinstance(prev, str):
                     if prev not in explicit:
-                        stack.append((ow, marked, c2, path + [ow]))
+                        stack.append((ow, marked, c2, path + [ow], vals))
                 else:
                     ex = set(explicit)
                     if isinstance(prev, tuple):
                         ex |= set(prev[1])
                     c2[key] = ("not", frozenset(ex))
-                    stack.append((ow, marked, c2, path + [ow]))
+                    stack.append((ow, marked, c2, path + [ow], vals))
         else:
             for tgt, _ in succ:
                 if tgt in path:
                     continue
-                stack.append((tgt, marked, cons, path + [tgt]))
+                stack.append((tgt, marked, cons, path + [tgt], vals))
     return leaves
 
 
@@ -100,6 +145,14 @@ def _agg_variants(t, out):
 
 def own_error_variants(body):
     out = set()
+    # variant constructors used as functions, e.g. `.map_err(Error::Transport)`
+    for c in body.calls.values():
+        if c.bb not in body.reachable:
+            continue
+        for a in list(c.args) + [c.func_op]:
+            fn = a.get("const", {}).get("fn") if "const" in a else None
+            if fn and fn["path"].startswith(ERR + "::") and fn["path"].count("::") == 1:
+                out.add("%s.*" % fn["path"].split("::")[1])
     for bb, j, s in body.assigns():
         if bb not in body.reachable:
             continue
